@@ -125,7 +125,10 @@ class RecheckCheck:
             "damage sets of size 0,1 (quick) and 2 (thorough, S only)",
             "foreign metafiles come from the reference encoder and are "
             "self-checked by the reference verifier (100% on intact content)",
-            "content parent directory never carries the torrent's own name",
+            "content parent directory never carries the torrent's own name "
+            "(it does contain siblings whose names extend the torrent name)",
+            "entry points: Checker(metafile, path).results() everywhere; the "
+            "CLI `recheck` for intact and removal cases at real scale",
             "C16: v1 metafiles with padding entries are judged only where the "
             "reference percentage is 0 or 100",
             "a FileNotFoundError when the content root itself was removed "
@@ -193,7 +196,13 @@ class RecheckCheck:
         base = world.fresh_dir()
         parent = os.path.join(base, "content")
         os.mkdir(parent)
+        # siblings whose names extend / are extended by the torrent name,
+        # one created before and one after the payload (listing order)
+        world.write_file(os.path.join(parent, world.ROOT_NAME + ".old", "a"),
+                         b"junk")
         root = world.materialize(files, parent)
+        world.write_file(os.path.join(parent, world.ROOT_NAME + "2"), b"junk")
+        world.write_file(os.path.join(parent, "to"), b"junk")
         mdir = os.path.join(base, "meta")
         os.mkdir(mdir)
         metas = {}
@@ -235,8 +244,10 @@ class RecheckCheck:
                 with open(p, "wb") as f:
                     f.write(data)
 
-    def run_impl(self, mpath, content):
+    def run_impl(self, mpath, content, cli=False):
         try:
+            if cli:
+                return ("pct", float(tf.execute(["recheck", mpath, content])))
             with tf.quiet():
                 c = tf.recheck.Checker(mpath, content)
                 return ("pct", float(c.results()))
@@ -297,11 +308,16 @@ class RecheckCheck:
                             "reference metafile does not verify its own "
                             f"payload: {fam} {w}")
                     res.states += 1
-                    for where, cpath in (("root", root), ("parent", parent)):
-                        if where == "parent" and dmg_set and \
+                    for where, cpath in (("root", root), ("parent", parent),
+                                         ("cli-root", root),
+                                         ("cli-parent", parent)):
+                        if where != "root" and dmg_set and \
                                 dmg_set[0][0] != "rm":
                             continue
-                        got = self.run_impl(mpath, cpath)
+                        if where.startswith("cli") and w["scale"] != "R":
+                            continue
+                        got = self.run_impl(mpath, cpath,
+                                            cli=where.startswith("cli"))
                         res.transitions += 1
                         res.evals += 1
                         res.validated += 1
